@@ -119,15 +119,27 @@ def judge_orders(ctx, tag, ssi, H, br, ordmax, dt, T, orders, sig):
             ctx.not_judged("eigenvalue separation < 0.05")
             continue
         tot = {}
+        noise = {}
         for eps in (1e-6, 1e-7):
             acc = np.zeros(order)
             nH = np.linalg.norm(H)
+            # rounding noise of the difference quotient, measured: the frequencies do not depend on the scale of H at all, so whatever
+            # f(H (1 + eps)) - f(H (1 - eps)) shows is rounding. A column contributes (noise / (2 eps) * its relative size)^2 of it.
+            fp_, lp_ = ident(ssi, H * (1 + eps), br, order, ordmax, dt)
+            fm_, lm_ = ident(ssi, H * (1 - eps), br, order, ordmax, dt)
+            dl = np.array([abs(fp_[int(np.argmin(np.abs(lp_ - l0[j])))] - fm_[int(np.argmin(np.abs(lm_ - l0[j])))]) for j in range(order)])
+            dl = np.maximum(dl, 4 * np.finfo(float).eps * np.abs(f0))
+            noise[eps] = np.zeros(order)
             for dH in dHs:
                 # directional derivative along the column, taken along the direction scaled to the size of H (the derivative is linear in
                 # the direction): columns of any magnitude are differentiated at the same relative step
                 nk = np.linalg.norm(dH) / nH
                 if nk == 0:
                     continue
+                c_ = float(np.vdot(H, dH) / np.vdot(H, H))
+                if np.linalg.norm(dH - c_ * H) <= 1e-13 * np.linalg.norm(dH):
+                    continue  # a column proportional to vec(H) (a common gain uncertainty): its exact derivative is zero, nothing to difference
+                noise[eps] += (dl / (2 * eps) * nk) ** 2
                 U_ = dH / nk
                 fp, lp = ident(ssi, H + eps * U_, br, order, ordmax, dt)
                 fm, lm = ident(ssi, H - eps * U_, br, order, ordmax, dt)
@@ -139,6 +151,9 @@ def judge_orders(ctx, tag, ssi, H, br, ordmax, dt, T, orders, sig):
         agree = np.max(np.abs(tot[1e-6] - tot[1e-7]) / np.maximum(tot[1e-6], 1e-300))
         if agree > 1e-4:
             ctx.not_judged("finite differences at the two step sizes disagree by > 1e-4")
+            continue
+        if np.any(noise[1e-6] > 1e-4 * tot[1e-6]):
+            ctx.not_judged("squared derivative below 1e4 x the measured rounding noise of the difference quotient")
             continue
         lam_tab = Lam[:order, order]
         ctx.ev(tag)
